@@ -20,7 +20,7 @@ MANIFEST = dict(
          "under alias-or-name with nil pointers omitted, the struct argument as body for POST/PUT/PATCH, and the caller's context (C06_request, "
          "C06_query, C06_placeholders — for arbitrary argument texts —, C06_body, C06_ctx, C06_one_request); duplicate aliases are rejected "
          "(C06_dup_alias_rejected); when the chain retries, every attempt is that request under the caller's context (C06_attempt, C06_attempt_identity). "
-         "Three finding regions with witness theorems (two pinned by the rest golden); seven former ones were repaired "
+         "Two finding regions with witness theorems (both pinned by the rest golden); eight former ones (the last: F_retryBody, 371dec3) were repaired "
          "in /repo and are stated as *_fixed / asserted as WF. Tied to the code (a) by generating clients with the rebuilt `shoot rest` from random interfaces, compiling "
          "them and recording the requests they send through a recording RoundTripper (nil pointers, URL-unsafe strings; url.JoinPath / "
          "Values.Encode / Header.Add / json.Marshal evaluated by the real functions) — through a plain client, a logging chain, and a chain with "
@@ -29,13 +29,13 @@ MANIFEST = dict(
          "the real regexps (verif hook internal/restclient/verif_export.go) on thousands of random and rendered texts.",
     note="Lean kernel + standard axioms. Proved at method level (directives parsed to their meaning -> request); the interface-level glue "
          "(method collection, compile failures) is tied by the correspondence. Known findings: F_ptrDict, F_nilStructDeref (repairs would change "
-         "the committed golden: notes/proposed/REST_REPAIRS.md), F_retryBody (a retried POST/PUT/PATCH has an empty body; golden-neutral repair proposed). Repaired in /repo and asserted as WF / Rejected: F_mixedCtx, F_bodyNoStruct, duplicate "
-         "aliases, F_twoDicts, F_qualScalar, F_structElsewhere, F_headerValue, F_pathArgBrace.",
+         "the committed golden: notes/proposed/REST_REPAIRS.md). Repaired in /repo and asserted as WF / Rejected: F_mixedCtx, F_bodyNoStruct, duplicate "
+         "aliases, F_twoDicts, F_qualScalar, F_structElsewhere, F_headerValue, F_pathArgBrace, F_retryBody.",
     technique="Lean 4 proof (induction over parameter lists, token lists, Go-map association lists, directive texts) + differential model/implementation "
               "correspondence on generated, compiled and executed clients + in-process regexp differential + regenerated facts tables",
     design="5/C06")
 
-FINDING_REGIONS = ["F_ptrDict", "F_nilStructDeref", "F_retryBody"]
+FINDING_REGIONS = ["F_ptrDict", "F_nilStructDeref"]
 
 
 def make_case(cid, iface, calls):
@@ -421,7 +421,7 @@ def attempt_cases(ctx, cases, impl, model):
     """the same calls through a client whose chain contains RetryMiddleware: one case per call (id <case>.R<i>), one observation set
     per attempt. Every attempt must be THE request of the call — the verb, URL, query, headers and complete body the model computed
     for the plain client — under the caller's context (its tag; ended once the caller has cancelled). Which parts hold on which
-    attempt is decided by the Lean side (driver case rest-attempts: Rest.attempt vs Rest.specAttempt, region F_retryBody)."""
+    attempt is decided by the Lean side (driver case rest-attempts: Rest.attempt vs Rest.specAttempt; the former finding region F_retryBody is WF since 371dec3)."""
     atts = []
     for c in cases:
         m, im = model.get(c["id"]), impl[c["id"]]
@@ -480,10 +480,6 @@ def attempt_cases(ctx, cases, impl, model):
 
 
 def sig(c, region, dk, im, m):
-    if region == "F_retryBody":
-        # the finding is about the body of a re-sent request and nothing else: any other difference in that region is a new one
-        other = sorted(set(k.split(".")[-1] for k in dk) - {"body", "clen"})
-        return region if not other else "%s+%s" % (region, ",".join(other))
     if region.startswith("F_"):
         return region
     return "%s:%s" % (region, ",".join(sorted(set(k.split(".")[-1] for k in dk))))
